@@ -453,8 +453,8 @@ PROPERTY = {
                     'specification and back restores the values; export twice leaves the same state.  The conversion inside export() is an assumed contract '
                     '(forces eval() on the model it traces and returns a new module).',
         not_decided=['equality of repeated exports as networks; outputs before / after export are compared only on the enumerated whole models (contracts/whole_pit.py, whole_supernet.py, whole_mps.py)',
-                     'MPS / SuperNet: the eval-mode forward that convert() runs on the shared layers overwrites the sampled coefficients until the next '
-                     'training forward (observed natively, see DESIGN.md section 5) - outside the assumed contract of convert()'],
+                     'export() in the middle of a search (training mode): the cost read after it equals the cost read before it - discharged with the real convert() on the '
+                     'enumerated MPS models only (contracts/whole_mps.py; defect found there and fixed); SuperNet with Gumbel noise is random and not compared'],
         assumptions=['writes that only add non-observable keys (output_shape added to vars(layer) of fixed layers by the full_cost path) are not failed'],
     ),
 }
